@@ -117,31 +117,62 @@ func checkC17(c *h.Check) {
 	rec = func(i int, kinds []int) {
 		if i == nslots {
 			ks := append([]int{}, kinds...)
-			for prior := 0; prior < 3; prior++ {
+			// prior content of each slot's output file, chosen independently per slot:
+			// 0 absent, 1 identical to what gen would write, 2 unrelated stale content,
+			// 3 identical plus trailing bytes, 4 a truncated prefix of the identical content
+			nprior := 5
+			total := 1
+			for range ks {
+				total *= nprior
+			}
+			for pv := 0; pv < total; pv++ {
 				t := h.Tree{"hdr.txt": c17Header}
+				var pn []string
+				x := pv
+				skip := false
 				for s, k := range ks {
+					prior := x % nprior
+					x /= nprior
+					pn = append(pn, fmt.Sprint(prior))
 					for p, cnt := range slotFiles(dirs[s], k) {
 						t[p] = cnt
 					}
 					if k == kN {
+						if prior != 0 {
+							skip = true
+						}
 						continue
 					}
+					stale := "//go:build !wireinject\n\npackage " + dirs[s] + "\n\n// stale output\nfunc stale() {}\n"
 					switch prior {
-					case 1:
-						if k != kF {
-							t[dirs[s]+"/wire_gen.go"] = freshOf(s, k, "")
-						} else {
-							t[dirs[s]+"/wire_gen.go"] = "//go:build !wireinject\n\npackage " + dirs[s] + "\n\n// previously generated, now stale\n"
+					case 1, 3, 4:
+						if k == kF {
+							if prior != 1 {
+								skip = true
+							}
+							t[dirs[s]+"/wire_gen.go"] = stale
+							break
 						}
+						f := freshOf(s, k, "")
+						switch prior {
+						case 3:
+							f += "\n// trailing bytes left over from a longer previous output\nfunc leftover() {}\n"
+						case 4:
+							f = f[:len(f)*2/3]
+						}
+						t[dirs[s]+"/wire_gen.go"] = f
 					case 2:
-						t[dirs[s]+"/wire_gen.go"] = "//go:build !wireinject\n\npackage " + dirs[s] + "\n\n// stale output\nfunc stale() {}\n"
+						t[dirs[s]+"/wire_gen.go"] = stale
 					}
+				}
+				if skip {
+					continue
 				}
 				var kn []string
 				for _, k := range ks {
 					kn = append(kn, slotKindNames[k])
 				}
-				initial = append(initial, &h.FSState{Tree: t, Meta: &c17Meta{kinds: ks}, Path: []string{fmt.Sprintf("init[%s;prior=%d]", strings.Join(kn, ","), prior)}})
+				initial = append(initial, &h.FSState{Tree: t, Meta: &c17Meta{kinds: ks}, Path: []string{fmt.Sprintf("init[%s;prior=%s]", strings.Join(kn, ","), strings.Join(pn, ","))}})
 			}
 			return
 		}
@@ -280,7 +311,7 @@ func checkC17(c *h.Check) {
 	c.Coverage["initial_states"] = len(initial)
 	c.Coverage["evaluations"] = ex.Transitions
 	c.Coverage["distinct_nontrivial"] = ex.States
-	c.Coverage["rule"] = fmt.Sprintf("explicit-state BFS (states = module trees by hash) from every assignment of package kinds {S1 accepted with a tag-dependent injector file, S2 accepted, F analysis fails, N no injectors} to %d package slots x prior output content {absent, identical, stale}; transitions: gen x {no option, -header_file readable, -header_file missing, -output_file_prefix, -tags, default-command form}, diff x {none, header, header missing, tags}, check and show x {none, tags}; chained to depth %d. Reference contract evaluated on every transition: exit status rules, exact file footprint, outputs equal to generating each package alone from scratch, read-only commands leave the tree hash unchanged, diff 0/1/2.", nslots, depth)
+	c.Coverage["rule"] = fmt.Sprintf("explicit-state BFS (states = module trees by hash) from every assignment of package kinds {S1 accepted with a tag-dependent injector file, S2 accepted, F analysis fails, N no injectors} to %d package slots x prior output content chosen per slot {absent, identical, stale, identical plus trailing bytes, truncated prefix}; transitions: gen x {no option, -header_file readable, -header_file missing, -output_file_prefix, -tags, default-command form}, diff x {none, header, header missing, tags}, check and show x {none, tags}; chained to depth %d. Reference contract evaluated on every transition: exit status rules, exact file footprint, outputs equal to generating each package alone from scratch, read-only commands leave the tree hash unchanged, diff 0/1/2.", nslots, depth)
 	c.Samples = append(c.Samples, map[string]interface{}{"initial": initial[len(initial)/2].Path, "ops": []string{"gen:header", "diff:none", "check:tags"}})
 	c.Assumptions = append(c.Assumptions, "a failing package is one whose Wire analysis fails; packages that do not type-check abort the whole load by design and are outside the alphabet", "reference output = the same binary generating the package alone from scratch (differential)")
 	if !ex.Closed {
